@@ -62,7 +62,8 @@ def gen_cases(tier, seed, gen, effort):
                 "cased": "all", "explicitNotExists": False, "nativeCidr": True}
     for _ in range((2500 if not thorough else 40000) * effort):
         mods = rnd.choice(["expand", "expand", "expand|contains", "contains|expand", "expand|all", "expand|startswith", "expand|cased", "cased|expand",
-                           "expand|endswith|all", "", "re|expand", "expand|windash", "expand|windash|all"])
+                           "expand|endswith|all", "", "re|expand", "expand|windash", "expand|windash|all",
+                           "re|expand|startswith", "re|expand|endswith", "re|expand|contains", "re|startswith|expand", "re|i|expand"])
         v = rnd.choice(VALUES)
         if rnd.random() < 0.35:
             v = [v, rnd.choice(VALUES)]
